@@ -197,10 +197,12 @@ Proof.
   unfold server_select_suite. intros H.
   destruct (fix_eddsa_server && (v <? 3) && _); [discriminate H|].
   destruct (first_matching _ (ch_suites ch)) as [x|] eqn:E.
-  2:{ destruct (_ && _); discriminate H. }
+  2:{ destruct (_ && existsb _ (ch_suites ch)); discriminate H. }
   apply first_matching_some in E. destruct E as [A B].
   assert (Hx : In x suites).
-  { destruct (map snd _) in A.
+  { destruct (fix_psk_prf_tls13_only && (v <? 4)) in A;
+      [unfold filter_for_certificate in A; apply filter_In in A; exact (proj1 A)|].
+    destruct (map snd _) in A.
     - unfold filter_for_certificate in A. apply filter_In in A. exact (proj1 A).
     - unfold filter_for_prfs in A. apply filter_In in A. destruct A as [A _].
       unfold filter_for_certificate in A. apply filter_In in A. exact (proj1 A). }
@@ -358,7 +360,9 @@ Proof.
   { intros A. rewrite A in E0. destruct (fl_cert fl) as [sc|]; [|discriminate E0].
     exists sc. split; [reflexivity|].
     destruct (check_chain 1000 (cl_set c) (fl_version fl) sc) as [[]|] eqn:CC; [|discriminate E0].
-    split; [reflexivity|]. cbn [bind] in E0. intros sg Hsg. rewrite Hsg in E0.
+    split; [reflexivity|]. cbn [bind] in E0.
+    destruct (fix_cert_type_vs_suite && negb (cert_fits_suite (fl_suite fl) (ct_alg sc))); [discriminate E0|].
+    cbn [bind] in E0. intros sg Hsg. rewrite Hsg in E0.
     destruct (memZ sg _) eqn:M; [apply memZ_In; exact M|discriminate E0]. }
   split; [reflexivity|]. split; [reflexivity|]. split; [reflexivity|]. split.
   { intros sg Hsg. destruct (_ && _) in Hsg; [exact Hsg|]. destruct (_ && _) in Hsg; [exact Hsg|discriminate Hsg]. }
